@@ -25,7 +25,7 @@ from .facts import Body, callee_name
 MAX_CALLEE_BLOCKS = 120
 MAX_BODY_BLOCKS = 2500
 MAX_ROUNDS = 4
-DESUGAR_ADAPTORS = False
+DESUGAR_ADAPTORS = not os.environ.get("SA_NO_DESUGAR")
 
 _BLOCK_KEYS = ("t", "unwind", "otherwise", "imag")
 
